@@ -1686,3 +1686,129 @@ Proof.
     destruct (ring_refines r s o HR H Hlo) as (s1 & r1 & x & ev & Hs & Hr & HR1 & H1).
     rewrite Hs in *. rewrite Hr. apply IH; assumption.
 Qed.
+
+(** * Well-formedness of the circular lists, and the abstraction as a function *)
+
+(* what [linked] means pointwise: next and prev are inverse bijections on the
+   elements of the list ... *)
+Lemma linked_inverse nx pv l x : linked nx pv l -> In x l ->
+  pv (nx x) = x /\ nx (pv x) = x /\ In (nx x) l /\ In (pv x) l.
+Proof.
+  intros Hl Hin. destruct (linked_closed _ _ _ x Hl Hin) as [Hn Hp].
+  split; [|split; [|split; assumption]].
+  - destruct (in_split _ _ Hin) as (l1 & l2 & E). subst l.
+    apply linked_rot_app in Hl. cbn [app] in Hl. destruct Hl as [_ Hl]. rewrite succs_chain in Hl.
+    destruct (l2 ++ l1) as [|b m].
+    + destruct (Hl x x) as [A B]; [left; reflexivity|]. rewrite A. exact B.
+    + destruct (Hl x b) as [A B]; [left; reflexivity|]. rewrite A. exact B.
+  - destruct (in_split _ _ Hin) as (l1 & l2 & E). subst l.
+    apply linked_rot_app in Hl. cbn [app] in Hl. destruct Hl as [_ Hl]. rewrite succs_chain in Hl.
+    destruct (Hl (last (l2 ++ l1) x) x) as [A B]; [apply in_or_app; right; left; reflexivity|].
+    rewrite B. exact A.
+Qed.
+
+(* ... and following next from any element visits every element exactly once
+   and comes back: one cycle *)
+Lemma linked_one_cycle nx pv l x : linked nx pv l -> In x l ->
+  exists l1 l2, l = l1 ++ x :: l2 /\
+    walk nx (length l) x = x :: l2 ++ l1 /\ chase nx (length l) x = x.
+Proof.
+  intros Hl Hin. destruct (in_split _ _ Hin) as (l1 & l2 & E). exists l1, l2. split; [exact E|].
+  subst l. apply linked_rot_app in Hl. cbn [app] in Hl.
+  destruct (walk_chase_fwd nx pv (x :: l2 ++ l1) [] x) as [Hw Hc].
+  - rewrite app_nil_r. exact Hl.
+  - discriminate.
+  - rewrite app_nil_r in Hw. cbn [app hd] in Hw, Hc.
+    replace (length (l1 ++ x :: l2)) with (length (x :: l2 ++ l1))
+      by (cbn [length]; rewrite !app_length; cbn [length]; lia).
+    split; assumption.
+Qed.
+
+(* both circular lists as the driver reads them *)
+Record ring_wf (r : rst) : Prop := {
+  W_main : linked (nx r) (pv r) (rwalk r);
+  W_ne : rwalk r <> [];
+  W_split : last (rwalk r) 0 = split r;
+  W_infl : iwalk r <> [] -> linked (nx r) (pv r) (iwalk r);
+  W_disj : NoDup (rwalk r ++ iwalk r);
+  W_all : forall e, In e (rwalk r ++ iwalk r) <-> e < 2 * rcap r;
+  W_len : length (rwalk r) + ninflight r = 2 * rcap r;
+  W_ilen : length (iwalk r) = ninflight r;
+  W_counters : nprec r + ngprec r + nprobe r + ngprobe r <= length (rwalk r);
+  W_busy : nprec r + nprobe r + ninflight r <= rcap r
+}.
+
+Lemma R_walks r s : R r s -> Inv s -> rwalk r = ring s /\ iwalk r = infl s.
+Proof.
+  intros [HRl Haux] H. pose proof (proj1 (Inv_InvC s) H) as HC.
+  aux_inv Haux. pose proof (total_length s HC) as Ht.
+  split.
+  - unfold rwalk. rewrite (ptr_first _ _ _ _ _ _ _ HRl), Acap, (L_nin _ _ _ _ _ _ _ HRl).
+    replace (2 * cap s - length (infl s)) with (length (ring s)) by (rewrite ring_len; lia).
+    destruct (walk_chase_fwd (nx r) (pv r) (ring s) [] 0) as [Hw _].
+    + rewrite app_nil_r. exact (L_ring _ _ _ _ _ _ _ HRl).
+    + rewrite app_nil_r. exact (L_ne _ _ _ _ _ _ _ HRl).
+    + rewrite app_nil_r in Hw. exact Hw.
+  - exact (ptr_infl _ _ _ _ _ _ _ HRl).
+Qed.
+
+Theorem R_wf r s : R r s -> Inv s -> ring_wf r.
+Proof.
+  intros HR H. destruct (R_walks r s HR H) as [Ew Ei]. destruct HR as [HRl Haux].
+  pose proof (proj1 (Inv_InvC s) H) as HC. aux_inv Haux.
+  pose proof (total_length s HC) as Ht. pose proof (ring_len s) as Hrl.
+  destruct (counters_add_up s H) as (_ & _ & Hb & _ & Hall).
+  constructor; rewrite ?Ew, ?Ei, ?Acap,
+    ?(L_np _ _ _ _ _ _ _ HRl), ?(L_ngp _ _ _ _ _ _ _ HRl), ?(L_nq _ _ _ _ _ _ _ HRl),
+    ?(L_ngq _ _ _ _ _ _ _ HRl), ?(L_nin _ _ _ _ _ _ _ HRl); try lia.
+  - exact (L_ring _ _ _ _ _ _ _ HRl).
+  - exact (L_ne _ _ _ _ _ _ _ HRl).
+  - exact (L_split _ _ _ _ _ _ _ HRl).
+  - intros HF. apply (L_infl _ _ _ _ _ _ _ HRl HF).
+  - exact (L_nd _ _ _ _ _ _ _ HRl).
+  - exact Hall.
+Qed.
+
+(* the abstraction function: cut the walk at the counters *)
+Definition abs_lists (r : rst) : list nat * list nat * list nat * list nat * list nat * list nat :=
+  let L := rwalk r in
+  let nun := length L - (nprec r + ngprec r + nprobe r + ngprobe r) in
+  let r1 := skipn (nprec r) L in
+  let r2 := skipn (ngprec r) r1 in
+  let r3 := skipn nun r2 in
+  (firstn (nprec r) L, firstn (ngprec r) r1, firstn nun r2,
+   rev (firstn (ngprobe r) r3), rev (skipn (ngprobe r) r3), iwalk r).
+
+Lemma firstn_app_exact (a b : list nat) : firstn (length a) (a ++ b) = a.
+Proof. rewrite firstn_app, Nat.sub_diag, firstn_all. cbn. apply app_nil_r. Qed.
+
+Lemma skipn_app_exact (a b : list nat) : skipn (length a) (a ++ b) = b.
+Proof. rewrite skipn_app, Nat.sub_diag, skipn_all. reflexivity. Qed.
+
+Theorem R_abs r s : R r s -> Inv s ->
+  abs_lists r = (prec s, gprec s, unused s, gprobe s, probe s, infl s).
+Proof.
+  intros HR H. destruct (R_walks r s HR H) as [Ew Ei]. destruct HR as [HRl _].
+  unfold abs_lists. rewrite Ew, Ei,
+    (L_np _ _ _ _ _ _ _ HRl), (L_ngp _ _ _ _ _ _ _ HRl), (L_nq _ _ _ _ _ _ _ HRl),
+    (L_ngq _ _ _ _ _ _ _ HRl).
+  replace (length (ring s) - (length (prec s) + length (gprec s) + length (probe s) + length (gprobe s)))
+    with (length (unused s)) by (rewrite ring_len; lia).
+  unfold ring. rewrite firstn_app_exact, skipn_app_exact, firstn_app_exact, skipn_app_exact,
+    firstn_app_exact, skipn_app_exact.
+  rewrite <- (rev_length (gprobe s)), firstn_app_exact, skipn_app_exact, !rev_involutive.
+  reflexivity.
+Qed.
+
+(** * Every legal history *)
+Theorem ring_wellformed_history c ops : 0 < c -> legal_hist true (init c) ops ->
+  exists r' s', rrun (rinit c) ops = ROk r' /\ run true (init c) ops = Ok s' /\
+                R r' s' /\ Inv s' /\ ring_wf r' /\
+                abs_lists r' = (prec s', gprec s', unused s', gprobe s', probe s', infl s').
+Proof.
+  intros Hc Hl.
+  destruct (ring_refines_history ops (rinit c) (init c) (R_init c Hc) (init_Inv c Hc) Hl)
+    as (r' & s' & Hr & Hs & HR & Hi).
+  exists r', s'. split; [exact Hr|]. split; [exact Hs|]. split; [exact HR|]. split; [exact Hi|].
+  split; [apply (R_wf r' s'); assumption|apply R_abs; assumption].
+Qed.
